@@ -293,7 +293,8 @@ structure ObjOk (db : Db) (s : State) (i : Nat) (q : Quantity) : Prop where
     db.categoryUnitValid cat u = true
   /-- a derived quantity is not of the "simple" shape and is interned under its composing key -/
   derived : q.derived = true → ∃ cs, readMap s.heap q.map = some cs ∧ dictIsSingleOne cs = none ∧
-    lookupKey s.cache (.comp (content cs) q.caption) = some i ∧ ∀ kc ∈ cs, kc.2.frozen = false
+    lookupKey s.cache (.comp (content cs) q.caption) = some i ∧ (∀ kc ∈ cs, kc.2.frozen = false) ∧
+    validateItems db cs = .ok ()
 
 structure Inv (db : Db) (s : State) : Prop where
   objs : ∀ i q, s.objs[i]? = some q → ObjOk db s i q
@@ -450,6 +451,21 @@ theorem thaw_unfrozen (items : List (Sym × Cell)) : ∀ kc ∈ thaw items, kc.2
   obtain ⟨a, _, rfl⟩ := hkc
   rfl
 
+theorem validateItems_thaw (db : Db) (items : List (Sym × Cell)) :
+    validateItems db (thaw items) = validateItems db items := by
+  induction items with
+  | nil => rfl
+  | cons a rest ih =>
+    obtain ⟨k, c⟩ := a
+    simp only [thaw, List.map_cons, validateItems] at ih ⊢
+    cases db.catByName k with
+    | none => rfl
+    | some ci =>
+      simp only
+      cases db.checkQuantityTypeUnit ci.qtype c.unit with
+      | error e => rfl
+      | ok _ => simpa [thaw] using ih
+
 theorem dictIsSingleOne_thaw (items : List (Sym × Cell)) :
     dictIsSingleOne (thaw items) = none ↔ dictIsSingleOne items = none := by
   cases items with
@@ -553,7 +569,7 @@ theorem cacheNew2_simple_good {db : Db} {s : State} (hs : Inv db s) (cat unit : 
 
 /-- a derived quantity created and registered under its composing key -/
 theorem cacheNew_derived_good {db : Db} {s : State} (hs : Inv db s) (items : List (Sym × Cell)) (od : Bool)
-    (cap : Option Sym) (hshape : dictIsSingleOne items = none)
+    (cap : Option Sym) (hshape : dictIsSingleOne items = none) (hval : validateItems db items = .ok ())
     (hmiss : lookupKey s.cache (compKey items cap) = none) {s' : State} {r : Except ErrKind Nat}
     (h : cacheNew (newDerived db s items od cap) (compKey items cap) = (s', r)) : Good db s s' r := by
   rcases newDerived_spec db s items od cap with ⟨e, he⟩ | hok
@@ -575,7 +591,7 @@ theorem cacheNew_derived_good {db : Db} {s : State} (hs : Inv db s) (items : Lis
           exact this, by rw [dictIsSingleOne_thaw]; exact hshape, by
           simp only [List.map_cons, List.map_nil]
           rw [lookupKey_append_single, content_thaw, ← compKey_eq, hmiss]
-          simp, thaw_unfrozen items⟩⟩
+          simp, thaw_unfrozen items, by rw [validateItems_thaw]; exact hval⟩⟩
       (by
         intro cat' u' cap' hmem
         rw [compKey_eq] at hmem
@@ -640,7 +656,10 @@ theorem obtainDict_good {db : Db} {s : State} (hs : Inv db s) (items : List (Sym
       · rename_i i hi
         simp only [Prod.mk.injEq] at h; obtain ⟨rfl, rfl⟩ := h; exact Good.hit hs hi
       · rename_i hmiss
-        exact cacheNew_derived_good hs items od cap hshape hmiss h
+        split at h
+        · simp only [Prod.mk.injEq] at h; obtain ⟨rfl, rfl⟩ := h; exact Good.same hs _
+        · rename_i hval
+          exact cacheNew_derived_good hs items od cap hshape hval hmiss h
   · simp only [Prod.mk.injEq] at h; obtain ⟨rfl, rfl⟩ := h; exact Good.same hs _
 
 /-- **`ObtainQuantity` keeps the invariant, alters nothing that exists and returns a live object** -/
@@ -1081,7 +1100,9 @@ theorem obtainDict_idem {db : Db} {s s1 : State} {items : List (Sym × Cell)} {o
       split at h
       · simp only [Prod.mk.injEq] at h; obtain ⟨rfl, _⟩ := h
         exact h0
-      · simp only [obtainDict, hshape, cacheNew_lookup h]
+      · split at h
+        · cases h
+        · simp only [obtainDict, hshape, cacheNew_lookup h]
   · cases h
 
 /-- **the same request repeated returns the identical object and changes nothing** -/
@@ -1313,7 +1334,7 @@ theorem live_cells {db : Db} {s : State} (hs : Inv db s) {i : Nat} {q : Quantity
   cases hd : q.derived
   · obtain ⟨cat, u, hr, _, _⟩ := simple_read o hd
     exact ⟨_, hr, fun kc hkc => by simp only [List.mem_singleton] at hkc; rw [hkc]⟩
-  · obtain ⟨cs, hr, _, _, hu⟩ := o.derived hd
+  · obtain ⟨cs, hr, _, _, hu, _⟩ := o.derived hd
     exact ⟨cs, hr, hu⟩
 
 /-- between live quantities `==` is equality of composing map and caption -/
@@ -1549,5 +1570,35 @@ theorem copies_no_type {db : Db} {s : State} (hs : Inv db s) {i1 i2 : Nat} {q1 q
   have U2 : Unfrozen h2 m2 := unfrozen_of_read a2 u2
   obtain ⟨n1, n2⟩ := matchQuantities_no_type (db := db) U1 U2
   exact ⟨n1, fun h3 hh div => mergePass_no_type m2 h3 m1 (n2 h3 hh).1⟩
+
+/-! ### every unit of a live quantity is a unit of its category's quantity type -/
+
+theorem validateItems_valid {db : Db} : ∀ {cs : List (Sym × Cell)}, validateItems db cs = .ok () →
+    ∀ kc ∈ cs, db.categoryUnitValid kc.1 kc.2.unit = true
+  | [], _, kc, hkc => by simp at hkc
+  | (k, c) :: rest, h, kc, hkc => by
+    simp only [validateItems] at h
+    cases hc : db.catByName k with
+    | none => simp [hc] at h
+    | some ci =>
+      simp only [hc] at h
+      cases hu : db.checkQuantityTypeUnit ci.qtype c.unit with
+      | error e => simp [hu] at h
+      | ok _ =>
+        simp only [hu] at h
+        simp only [List.mem_cons] at hkc
+        rcases hkc with rfl | hkc
+        · simp [Db.categoryUnitValid, hc, hu]
+        · exact validateItems_valid h kc hkc
+
+theorem live_units_valid {db : Db} {s : State} (hs : Inv db s) {i : Nat} {q : Quantity}
+    (hq : s.objs[i]? = some q) :
+    ∃ cs, readMap s.heap q.map = some cs ∧ ∀ kc ∈ cs, db.categoryUnitValid kc.1 kc.2.unit = true := by
+  have o := hs.objs i q hq
+  cases hd : q.derived
+  · obtain ⟨cat, u, hr, hv, _⟩ := simple_read o hd
+    exact ⟨_, hr, fun kc hkc => by simp only [List.mem_singleton] at hkc; rw [hkc]; exact hv⟩
+  · obtain ⟨cs, hr, _, _, _, hv⟩ := o.derived hd
+    exact ⟨cs, hr, validateItems_valid hv⟩
 
 end Barril.Intern
